@@ -17,6 +17,7 @@ TRUSTED_BASE = [
     'the harness interns strings injectively (0 = "", 1..4 = the four documented metadata keys as LITERALS, 5 = the wrap text), projects returned errors to trees by type '
     '(pkg/errors withStack layers are transparent) and attributes collaborator calls to messages by goroutine id',
     'the return value of the Router\'s own Ack()/Nack() call is not observable and is projected out of the comparison',
+    'testing, not proof: the thorough tier re-runs the scenarios under the Go race detector (state shared between in-flight messages)',
 ]
 ASSUMPTIONS = [
     'independence of messages/handlers sharing one middleware value is structural in the model (poison is a function of its arguments); the harness checks it by running 1..8 messages in '
@@ -183,6 +184,16 @@ def run(ctx):
         if bad or not k['err_is_documented']:
             res.violations.append(dict(signature='C13/constructor', what='PoisonQueue/PoisonQueueWithFilter: a middleware must be returned iff the topic is non-empty, ErrInvalidPoisonQueueTopic otherwise',
                                        case=dict(topic=strings[k['topic']], with_filter=k['with_filter'], got_middleware=k['got_mw'])))
+    # ---- race detector (thorough only): testing, not proof - state shared between messages / handlers
+    if tier == 'thorough' and not ctx.get('no_race'):
+        rb = C.build_harness(race=True)
+        p = C.sh([rb, 'c13', '-seed', str(seed), '-tier', 'quick', '-out', C.workdir(pid) + '/c13race.json'],
+                 check=False, env=dict(C.GOENV, GORACE='halt_on_error=0'), timeout=900)
+        races = p.stdout.count('WARNING: DATA RACE')
+        res.extra['race_detector'] = dict(labelled='testing', races_reported=races)
+        if races:
+            res.violations.append(dict(signature='C13/data-race', what='race detector reports a data race while messages are in flight through handlers sharing one PoisonQueue value',
+                                       case=dict(report=p.stdout[:3000])))
     picks = [c for c in good if c['router'] and c['desc']['handler_outcome'] == 'fails' and any(e[0] == 'ppublish' for e in c['trace'])]
     if picks: res.sample(describe(picks[0], strings))
     picks = [c for c in good if c['router'] and c['desc']['handler_outcome'] == 'fails' and c['final'] == 2 and any(e[0] == 'ppubret' and not e[1] for e in c['trace'])]
@@ -200,7 +211,7 @@ def run(ctx):
 def search(ctx, res):
     out = C.Result()
     for k in range(1, 4):
-        r = run(dict(ctx, seed=ctx['seed'] + 100 * k))
+        r = run(dict(ctx, seed=ctx['seed'] + 100 * k, no_race=True))
         out.evaluations += r.evaluations; out.nontrivial |= r.nontrivial; out.violations += r.violations
         if r.violations: break
     return out
